@@ -23,6 +23,8 @@ type Spec struct {
 	Explanation string
 	NotDecided  []string
 	Assumptions []string
+	Technique   string
+	Engines     string
 	Run         func(r *an.Run)
 	// TagMatrix lists extra build configurations for the thorough tier.
 	TagMatrix [][]string
